@@ -36,7 +36,7 @@ def drop_wt(wt):
 def build_demo(wt, demo, out):
     inc = os.path.join(wt, "CPP/Clipper2Lib/include")
     src = os.path.join(wt, "CPP/Clipper2Lib/src")
-    cmd = "g++ -std=c++17 -O1 -w -pthread -I %s -I %s %s %s/*.cpp -o %s" % (inc, os.path.join(wt, "CPP/Utils"), demo, src, out)
+    cmd = "g++ -std=c++17 -O1 -w -pthread -I %s -I %s -I %s %s %s/*.cpp -o %s" % (inc, os.path.join(wt, "CPP/Utils"), src, demo, src, out)
     meta_flags = ""
     r = sh(cmd)
     return r.returncode == 0, r.stderr[-2000:]
